@@ -23,6 +23,10 @@ def failedAt (pos : Nat) (r : Run) : Nat := getFailed r pos
 @[simp] theorem failedAt_setFailed (pos : Nat) (r : Run) (n : Nat) : failedAt pos (setFailed r pos n) = n :=
   getFailed_setFailed r pos n
 
+@[simp] theorem failedAt_trigger (pos : Nat) (r : Run) (nm : String) : failedAt pos (r.trigger nm) = failedAt pos r := by
+  simp [failedAt, getFailed]
+@[simp] theorem failedAt_last (pos : Nat) (r : Run) (o : Outcome) : failedAt pos { r with last := o } = failedAt pos r := rfl
+
 /-- `OnFailure` counts the failure -/
 theorem retryOnFailure_failed (pos : Nat) (m : Int) (rl : Bool) (a : List Cond) (res : PR) (r : Run) :
     failedAt pos (retryOnFailure pos m rl a res r).2 = failedAt pos r + 1 := by
@@ -51,6 +55,10 @@ def excAt (pos : Nat) (r : Run) : Bool := r.exceeded.contains pos
 @[simp] theorem excAt_setFailed (pos : Nat) (r : Run) (p n : Nat) : excAt pos (setFailed r p n) = excAt pos r := rfl
 @[simp] theorem excAt_cons (pos : Nat) (r : Run) : excAt pos { r with exceeded := pos :: r.exceeded } = true := by
   simp [excAt]
+
+@[simp] theorem excAt_trigger (pos : Nat) (r : Run) (nm : String) : excAt pos (r.trigger nm) = excAt pos r := by
+  simp [excAt]
+@[simp] theorem excAt_last (pos : Nat) (r : Run) (o : Outcome) : excAt pos { r with last := o } = excAt pos r := rfl
 
 /-- `OnFailure` sets `retriesExceeded` exactly when the count passes `maxRetries` -/
 theorem retryOnFailure_exceeded (pos : Nat) (m : Int) (rl : Bool) (a : List Cond) (res : PR) (r : Run) :
@@ -88,7 +96,7 @@ theorem retry_budget (pos : Nat) (m : Int) (hm : 0 ≤ m) (rl : Bool) (h a : Lis
       obtain ⟨hf1, he1⟩ := hin r res1 r1 hi
       have hb1 : Budget pos m r1 := by unfold Budget; rw [hf1, he1]; exact hb
       simp only [hi] at hh
-      by_cases hc : r1.cancelled = true
+      by_cases hc : r1.isCanc = true
       · simp only [hc, if_true, Option.some.injEq, Prod.mk.injEq] at hh
         obtain ⟨_, rfl⟩ := hh; exact hb1
       · simp only [hc] at hh
@@ -115,7 +123,19 @@ theorem retry_budget (pos : Nat) (m : Int) (hm : 0 ≤ m) (rl : Bool) (h a : Lis
             · simp only [hd, if_true, Option.some.injEq, Prod.mk.injEq] at hh
               obtain ⟨_, rfl⟩ := hh; exact hb2
             · simp only [hd] at hh
-              exact ih _ res r' hh hb2
+              -- the state handed on (last outcome recorded, listener, scripted cancellation point) has the same executor state
+              generalize hX : (({ (retryOnFailure pos m rl a res1.withFailure r1).2 with
+                  last := (retryOnFailure pos m rl a res1.withFailure r1).1.outcome }).emit "rp.onRetryScheduled" pos).trigger "rp.onRetryScheduled" = X at hh
+              have hbX : Budget pos m X := by
+                rw [← hX]; unfold Budget
+                simp only [failedAt_trigger, failedAt_emit, failedAt_last, excAt_trigger, excAt_emit, excAt_last]; exact hb2
+              by_cases hx : X.isCanc = true
+              · simp only [hx, if_true, Option.some.injEq, Prod.mk.injEq] at hh
+                obtain ⟨_, rfl⟩ := hh; exact hbX
+              · simp only [hx] at hh
+                refine ih _ res r' hh ?_
+                unfold Budget at hbX ⊢
+                exact hbX
           · simp only [hfl, Option.some.injEq, Prod.mk.injEq] at hh
             obtain ⟨_, rfl⟩ := hh; exact hb1
 
@@ -129,7 +149,7 @@ theorem budget_fresh (pos : Nat) (m : Int) (hm : 0 ≤ m) (w : World) (sc : List
 
 /-- **never after a success**: an outcome the policy does not classify as a failure ends the loop at once, unchanged -/
 theorem retry_stops_on_success (pos : Nat) (m : Int) (rl : Bool) (h a : List Cond) (inner : Layer) (fuel : Nat) (r : Run)
-    (res1 : PR) (r1 : Run) (hi : inner r = some (res1, r1)) (hc : r1.cancelled = false)
+    (res1 : PR) (r1 : Run) (hi : inner r = some (res1, r1)) (hc : r1.isCanc = false)
     (he : r1.exceeded.contains pos = false) (hs : isFailure h res1.outcome = false) :
     retryLoop pos m rl h a inner (fuel + 1) r = some (res1.withDone true true, r1.emit "rp.onSuccess" pos) := by
   simp only [retryLoop, hi, hc, he, hs, Bool.false_eq_true, if_false]
@@ -158,7 +178,7 @@ theorem retry_abort_stops (pos : Nat) (m : Int) (rl : Bool) (a : List Cond) (res
 
 /-- once exhausted the executor handles nothing more in this execution: inner results pass through untouched -/
 theorem retry_exhausted_passthrough (pos : Nat) (m : Int) (rl : Bool) (h a : List Cond) (inner : Layer) (fuel : Nat) (r : Run)
-    (res1 : PR) (r1 : Run) (hi : inner r = some (res1, r1)) (hc : r1.cancelled = false)
+    (res1 : PR) (r1 : Run) (hi : inner r = some (res1, r1)) (hc : r1.isCanc = false)
     (he : r1.exceeded.contains pos = true) :
     retryLoop pos m rl h a inner (fuel + 1) r = some (res1, r1) := by
   simp only [retryLoop, hi, hc, he, Bool.false_eq_true, if_false, if_true]
